@@ -812,3 +812,36 @@ package table
 //@ func (*Path).SetNexthop
 //@   claims at-call
 //@   at-call bgp.NewPathAttributeMpReachNLRI( requires len(arg2) == 1 && arg2[0] == nexthop
+
+// from C10 "what is read back equals what was configured": a policy that an assignment still uses - in either
+// direction - is not deleted from under it (the assignment would go on applying an object no listing shows): the
+// in-use check visits the import and the export assignments of every active id
+//@ props C10
+//@ func (*RoutingPolicy).DeletePolicy$1
+//@   claims step
+//@   loop 1 step (__iter == 0 ==> dir == POLICY_DIRECTION_IMPORT) && (__iter == 1 ==> dir == POLICY_DIRECTION_EXPORT)
+// (a lookup: changes nothing)
+//@ func (*RoutingPolicy).getPolicy
+//@   claims frame
+//@   modifies nothing
+// from C10 "what is read back equals what was configured": a request that is answered with an error leaves nothing
+// behind - a policy that refers to a statement nobody defined is neither stored nor merged into an existing one
+//@ func (*Policy).FillUp
+//@   requires p != nil
+//@   claims frame
+//@   modifies p.Statements
+//@ func (*RoutingPolicy).AddPolicy
+//@   claims at-return
+//@   at-return requires refer && !ok && ret0 != nil ==> !has(pMap, name)
+// from C10 "what is read back equals what was configured": the origin CONDITION of a statement is read back from
+// the condition (not from the set-route-origin action, which is a different thing)
+//@ func toStatementApi
+//@   claims at-return at-call
+//@   at-return requires called(ToOriginApi)
+//@   at-call ToOriginApi(s.Conditions requires arg0 == s.Conditions.BgpConditions.OriginEq
+//@ func ToOriginApi
+//@   claims post
+//@   ensures o == oc.BGP_ORIGIN_ATTR_TYPE_IGP ==> result == api.OriginType_ORIGIN_TYPE_IGP
+//@   ensures o == oc.BGP_ORIGIN_ATTR_TYPE_EGP ==> result == api.OriginType_ORIGIN_TYPE_EGP
+//@   ensures o == oc.BGP_ORIGIN_ATTR_TYPE_INCOMPLETE ==> result == api.OriginType_ORIGIN_TYPE_INCOMPLETE
+//@   ensures o != oc.BGP_ORIGIN_ATTR_TYPE_IGP && o != oc.BGP_ORIGIN_ATTR_TYPE_EGP && o != oc.BGP_ORIGIN_ATTR_TYPE_INCOMPLETE ==> result == api.OriginType_ORIGIN_TYPE_UNSPECIFIED
